@@ -537,6 +537,12 @@ void ScriptVM::Execute(const VarListView& data, const StringResolvable& label)
     }
     while (!doneProcessing);
 
+#ifdef MORFUSE_VERIF
+    if (verif::vm_probe && (state == vmState_e::Destroy || state == vmState_e::Destroyed)) {
+        verif::vm_probe(this, -1, m_Stack.GetIndex(), m_Stack.GetStackSize(), m_bMarkStack);
+    }
+#endif
+
     switch (state)
     {
     case vmState_e::Suspended:
@@ -581,6 +587,11 @@ bool ScriptVM::Process(ScriptContext& context, uinttime_t interruptTime)
             }
         }
 
+#ifdef MORFUSE_VERIF
+        if (verif::vm_probe) {
+            verif::vm_probe(this, m_CodePos - m_ScriptClass->GetScript()->GetProgBuffer(), m_Stack.GetIndex(), m_Stack.GetStackSize(), m_bMarkStack);
+        }
+#endif
         m_PrevCodePos = m_CodePos;
         const opval_t opcode = ReadOpcodeValue<opval_t>();
         switch (opcode)
